@@ -37,9 +37,9 @@ func init() {
 			"porcupine timeout (60 s per history) is inconclusive, not a violation"},
 		Cases: func(tier string) int {
 			if tier == "quick" {
-				return 48
+				return 96
 			}
-			return 480
+			return 960
 		},
 		Run:          runC16,
 		Race:         true,
